@@ -586,6 +586,16 @@ func c16r3(c *Ctx) {
 			return 0
 		}
 		for _, ref := range *obj.Referrers() {
+			// the literal built in a temporary and copied into the result as a whole (`*result = *tmp`: the shape newer
+			// go/ssa builders give `x := T{…}; return &x`): the fields are those stored into the temporary
+			if st, ok := ref.(*ssa.Store); ok && st.Addr == obj {
+				if ld, ok := st.Val.(*ssa.UnOp); ok && ld.Op == token.MUL {
+					if tmp, ok := ld.X.(*ssa.Alloc); ok && tmp != obj {
+						nf += checkObj(ce, tmp, r, depth+1)
+					}
+				}
+				continue
+			}
 			// the object handed on to a helper that fills it
 			if call, ok := ref.(*ssa.Call); ok {
 				sc := call.Call.StaticCallee()
